@@ -92,9 +92,8 @@ def run(ctx):
                 e = ctx.expr(f, node["r"])
                 for d in ctx.pc_strs(f, blk):
                     pcs.append((e, sorted(d)))
-        tr = [d for e, d in pcs if e in ("true", "!self.unit") and all(x.endswith("=False") for x in d)]
-        flags = set(a.split("=")[0] for e, d in pcs for a in d) | {e.lstrip("!") for e, d in pcs if e.startswith("!self.")}
-        ctx.ob("C18.G.is-empty-all-four", f.key, "reads all four flags", flags >= {"self.named", "self.newtype", "self.tuple", "self.unit"}, "%s" % sorted(flags))
+        tc = ctx.true_conditions(f)
+        ctx.ob("C18.G.is-empty-all-four", f.key, "empty iff all four flags are off", tc == [{"self.named=False", "self.newtype=False", "self.tuple=False", "self.unit=False"}], "true under %s" % tc)
     # AsShape siblings
     got = {}
     for key, lenexpr in (("<darling_core::ast::data::Fields<T> as darling_core::util::shape::AsShape>::as_shape", r"len\(self\.fields\)"),
@@ -186,16 +185,28 @@ def run(ctx):
                 body = T.text(s)
         ctx.ob("C18.H.validator-template", f.key, "match *__body { Enum, Struct, Union }", body is not None, "template found")
         if body:
-            ok = bool(re.search(r"Data :: Enum \( ref data \) => \{ if enum_check \. is_empty \( \) \{ return :: darling :: export :: Err \( :: darling :: Error :: unsupported_shape_with_expected \( \"enum\"", body))
+            # generated locals are compared up to renaming; which set is bound to which local comes
+            # from the interpolated expressions, in order
+            body = tpl.alpha(body)
+            sets_stream = [s for s in T.by_stream if "match * __body" in T.text(s)][0]
+            exprs = [(tk.expr or "") for tk in T.by_stream[sets_stream] if tk.kind == "interp" and tk.ty and "DataShape" in tk.ty]
+            V = r"(\$\d+)"
+            mb = re.search(r"let %s = ⟨darling_core::options::shape::DataShape⟩ ; let %s = ⟨darling_core::options::shape::DataShape⟩ ;" % (V, V), body)
+            which = dict(zip(mb.groups(), exprs)) if mb and len(exprs) == 2 else {}
+            ctx.ob("C18.H.check-sets", f.key, "the two shape sets are bound to locals", sorted(which.values()) == ["self.enum_values", "self.struct_values"], "bindings %s" % which)
+            me = re.search(r"Data :: Enum \( ref %s \) => \{ if %s \. is_empty \( \) \{ return :: darling :: export :: Err \( :: darling :: Error :: unsupported_shape_with_expected \( \"enum\"" % (V, V), body)
+            ok = bool(me) and which.get(me.group(2)) == "self.enum_values"
             ctx.ob("C18.H.enum-needs-enum-words", f.key, "enum with no enum_* word → error", ok, body[:200])
-            ok = bool(re.search(r"Data :: Struct \( ref struct_data \) => \{ if struct_check \. is_empty \( \) \{ return :: darling :: export :: Err \( :: darling :: Error :: unsupported_shape_with_expected \( \"struct\"", body))
+            ms = re.search(r"Data :: Struct \( ref %s \) => \{ if %s \. is_empty \( \) \{ return :: darling :: export :: Err \( :: darling :: Error :: unsupported_shape_with_expected \( \"struct\"" % (V, V), body)
+            ok = bool(ms) and which.get(ms.group(2)) == "self.struct_values"
             ctx.ob("C18.H.struct-needs-struct-words", f.key, "struct with no struct_* word → error", ok, "struct arm")
-            ok = "for variant in & data . variants { variant_errors . handle ( enum_check . check ( variant ) ) ; } variant_errors . finish ( )" in body
+            ok = False
+            if me:
+                D, E = re.escape(me.group(1)), re.escape(me.group(2))
+                ok = bool(re.search(r"for %s in & %s \. variants \{ %s \. handle \( %s \. check \( \1 \) \) ; \} \2 \. finish \( \)" % (V, D, V, E), body))
             ctx.ob("C18.H.every-variant-checked", f.key, "one handle(check(variant)) per variant, finish()", ok, "enum arm")
-            ok = "struct_check . check ( struct_data )" in body
+            ok = bool(ms) and ("%s . check ( %s )" % (ms.group(2), ms.group(1))) in body
             ctx.ob("C18.H.struct-checked", f.key, "struct_check.check(struct_data)", ok, "struct arm")
-            ok = bool(re.search(r"let struct_check = ⟨darling_core::options::shape::DataShape⟩ ; let enum_check = ⟨darling_core::options::shape::DataShape⟩ ;", body))
-            ctx.ob("C18.H.check-sets", f.key, "struct_check = #st; enum_check = #en", ok, "bindings")
             un = re.search(r"Data :: Union \( _ \) => (.*?) , \}", body)
             ok = bool(un) and ("Err" in un.group(1)) and "unreachable" not in un.group(1)
             ctx.ob("C18.H.union-is-error-not-crash", f.key, "syn::Data::Union arm", ok, "F5: the union arm of the generated validator is `%s` – a union satisfies no word but must be an error, never a crash" % (un.group(1) if un else "?"))
